@@ -41,6 +41,9 @@ def gen_config(rng, pipe_in=None):
     else:
         cfg["in"] = "tty"
         cfg["out"] = rng.choice(["pipe", "pipe", "env"])
+    # DEBUG_SET_PIPE_* force piping by being set, whatever their value; set next to a real pipe they change nothing
+    cfg["pipe_env_value"] = rng.choice(["1", "1", "0", "", "yes", "false"])
+    cfg["pipe_env_also"] = rng.chance(20)
     cfg["quiet"] = rng.chance(30)
     cfg["debug"] = [a for a in DEBUG_AREAS if rng.chance(30)]
     cfg["debug_env"] = {}
@@ -82,7 +85,7 @@ def shrink_extra(scn, still, budget):
     out = workloads.shrink_script(scn, still, budget)
     # simplify the configurations
     for key in ("cfg", "cfg2"):
-        for fld, val in (("quiet", False), ("debug", []), ("debug_env", {})):
+        for fld, val in (("quiet", False), ("debug", []), ("debug_env", {}), ("pipe_env_also", False), ("pipe_env_value", "1")):
             if budget[0] <= 0:
                 break
             if out[key].get(fld) != val:
@@ -115,10 +118,11 @@ def world_for(scn, cfg, stdin_fault=None, verbose=False):
     pipe_in = cfg["in"] != "tty"
     s2["tty"] = [0 if cfg["in"] == "pipe" else 1, 0 if cfg["out"] == "pipe" else 1]
     env = dict(cfg.get("debug_env", {}))
-    if cfg["in"] == "env":
-        env["DEBUG_SET_PIPE_IN"] = "1"
-    if cfg["out"] == "env":
-        env["DEBUG_SET_PIPE_OUT"] = "1"
+    val = cfg.get("pipe_env_value", "1")
+    if cfg["in"] == "env" or (cfg["in"] == "pipe" and cfg.get("pipe_env_also")):
+        env["DEBUG_SET_PIPE_IN"] = val
+    if cfg["out"] == "env" or (cfg["out"] == "pipe" and cfg.get("pipe_env_also")):
+        env["DEBUG_SET_PIPE_OUT"] = val
     s2["env"] = env
     s2["script_on_stdin"] = pipe_in
     w = session.build_world(s2, sched=[], faults=False)
